@@ -2,10 +2,12 @@ package workflow
 
 import (
 	"context"
+	"encoding/json"
 	"errors"
 	"fmt"
 	"go.flow.arcalot.io/engine/internal/util"
 	"reflect"
+	"sort"
 	"strconv"
 	"strings"
 
@@ -235,7 +237,49 @@ func (e *executor) processInput(workflow *Workflow) (schema.Scope, error) {
 		return nil, fmt.Errorf("bug: unserialized input is not a scope")
 	}
 	typedInput.ApplySelf()
+	if err := validateDefaults(typedInput); err != nil {
+		return nil, &ErrInvalidWorkflow{fmt.Errorf("invalid workflow input section (%w)", err)}
+	}
 	return typedInput, nil
+}
+
+// validateDefaults checks that the declared default values of the input can be decoded.
+// The schema decodes them when the first input is unserialized, and panics if it cannot.
+func validateDefaults(scope schema.Scope) error {
+	objects := scope.Objects()
+	objectIDs := make([]string, 0, len(objects))
+	for objectID := range objects {
+		objectIDs = append(objectIDs, objectID)
+	}
+	sort.Strings(objectIDs)
+	for _, objectID := range objectIDs {
+		properties := objects[objectID].Properties()
+		propertyIDs := make([]string, 0, len(properties))
+		for propertyID := range properties {
+			propertyIDs = append(propertyIDs, propertyID)
+		}
+		sort.Strings(propertyIDs)
+		for _, propertyID := range propertyIDs {
+			property := properties[propertyID]
+			if property.Default() == nil {
+				continue
+			}
+			var value any
+			defaultValue := *property.Default()
+			err := json.Unmarshal([]byte(defaultValue), &value)
+			if err != nil && property.TypeID() == schema.TypeIDString {
+				// The schema reads an unquoted default of a string property as that string.
+				err = json.Unmarshal([]byte("\""+defaultValue+"\""), &value)
+			}
+			if err != nil {
+				return fmt.Errorf(
+					"default value of property %s of object %s is not valid JSON (%w)",
+					propertyID, objectID, err,
+				)
+			}
+		}
+	}
+	return nil
 }
 
 func (e *executor) processSteps(
